@@ -13,7 +13,7 @@ from ..core import Batch, cbool, clist, cnat, copt, cpair
 ID = "C15"
 LEVEL = "proof"
 PROP_FILE = "Properties/C15.v"
-PROOF_FILES = ["Proofs/RenderProofs.v", "Proofs/TikzProofs.v", "Proofs/EscapeProofs.v", "Proofs/WrapProofs.v", "Proofs/ColourProofs.v",
+PROOF_FILES = ["Proofs/ReviewCEscape.v", "Proofs/RenderProofs.v", "Proofs/TikzProofs.v", "Proofs/EscapeProofs.v", "Proofs/WrapProofs.v", "Proofs/ColourProofs.v",
                "Model/Tikz.v", "Model/Escape.v", "Model/Wrap.v", "Model/Colour.v", "Gen/TikzTemplates.v"]
 TRUSTED = [
     "translator/tikz_templates.py (fail-closed ast walk of render/tikz.py -> Gen/TikzTemplates.v; its output is data re-checked by the kernel and "
